@@ -72,7 +72,7 @@ def _ref_tree_case(rng: Rng, tier: str):
     calls = []
     for _ in range(r.randint(1, 3)):
         calls.append({"op": "extract", "targets": rsess.gen_targets(r, stub), "recursive": r.chance(0.6), "as": r.pick(["list", "set"]), "sink": r.pick(["factory", "path"]), "fresh": r.chance(0.5)})
-    return {"ref": {"members": members, "layout": layout}, "calls": calls, "open": r.pick(["path", "stream"]),
+    return {"ref": {"members": members, "layout": layout}, "calls": calls, "open": r.pick(["path", "stream", "anon"]),
             "read": {"block": r.pick([16, 4096, 1048576]), "chunk": r.pick([17, 4096, 128000000]), "bufsize": 8192}}
 
 
@@ -87,7 +87,7 @@ def gen_case(rng: Rng, i: int, tier: str):
     for _ in range(r.randint(1, 3)):
         calls.append({"op": "extract", "targets": rsess.gen_targets(r, stub), "recursive": r.chance(0.5), "as": r.pick(["list", "set"]),
                       "sink": r.pick(["factory", "path"]), "fresh": r.chance(0.5)})
-    return {"archive": arc, "calls": calls, "open": r.pick(["path", "stream"]),
+    return {"archive": arc, "calls": calls, "open": r.pick(["path", "stream", "anon"]),
             "read": {"block": r.pick([16, 255, 4096, 32768, 1048576]), "chunk": r.pick([1, 15, 17, 4096, 128000000]), "bufsize": 8192}}
 
 
